@@ -960,7 +960,7 @@ M("c12-class-level-registry", ["C12", "C16"], ["C12.own", "C16.fresh"],
     _callbacks = CallbacksRegistry()
 """))
 M("c12-executor-no-seen-check", ["C12", "C02"], ["C12.dedup", "C02.once"],
-  E(CB, """        if key in self.items_already_seen:
+  E(CB, """        if seen_key in self.items_already_seen:
             return
 
 """, ""))
@@ -1102,7 +1102,7 @@ M("c02-executor-key-without-list-id", ["C02"], ["C02.keys"],
   E(CB, '        return f"{self.name}@{id(specs)}"', '        return f"{self.name}"'),
   note="every transition shares one executor per group: callbacks of other transitions run too")
 M("c02-spec-eq-ignores-group", ["C02"], ["C02.once"],
-  E(CB, "        return self.func == other.func and self.group == other.group", "        return self.func == other.func"),
+  E(CB, "            and self.group == other.group\n", ""),
   note="a name used for both `before` and `on` of one transition is registered once only")
 M("c02-instancestate-exit-returns-enter", ["C02"], ["C02.keys"],
   E(ST, """    def exit(self):
@@ -1112,3 +1112,15 @@ M("c12-resolve-skips-all-conventions", ["C12"], ["C12.allproviders"],
   E(DISP, "                spec.is_convention and spec.func not in found_convention_specs", "                spec.is_convention or spec.func not in found_convention_specs"))
 M("c12-found-conventions-from-first-listener", ["C12"], ["C12.allproviders"],
   E(DISP, "        found_convention_specs = specs.conventional_specs & self.all_attrs", "        found_convention_specs = specs.conventional_specs & self.items[0].all_attrs"))
+
+# ----------------------------------------------------------------------------------------- F17 / F18 (found via a sub-agent's side remark)
+M("c08-f17-reintroduced-eq", ["C08"], ["C08.identity"],
+  E(CB, """        return (
+            self.func == other.func
+            and self.group == other.group
+            and self.expected_value == other.expected_value
+        )""", """        return self.func == other.func and self.group == other.group"""), note="F17 (first site)")
+M("c08-f17-reintroduced-seen-key", ["C08"], ["C08.identity"],
+  E(CB, "        seen_key = (key, spec.expected_value)", "        seen_key = key"), note="F17 (second site)")
+M("c08-f18-reintroduced", ["C08"], ["C08.identity"],
+  E(SP, '    return f"({left_key} {operator} {right_key})"', '    return f"{left_key} {operator} {right_key}"'), note="F18")
